@@ -180,6 +180,8 @@ def run(ctx, R, tier):
             R.add("C20-R1", "index-page|storage-regex-listing|" + o.key.split("|", 1)[1], "the sqlite storage's own regex listing (used for the index page when the name server runs on sqlite) "
                   "matches no more than the anchored pattern the gateway checks", o.ok, o.loc, o.detail or "")
 
+    from .common import names_bound
+    names_bound(ctx, R, "C20-R3", {"Pyro5.utils.httpgateway"}, "the request is answered by the WSGI server's generic crash page instead of the gateway's 200/403/404/405/500 mapping")
     # the gateway forces the json serializer and relays the reply bytes: "that call's JSON result (200) or its error (500)" rests on the encoder refusing what json cannot
     # express (an error reply -> 500) instead of leaving it out (200 with part of the result)
     from . import c01
